@@ -11,7 +11,10 @@ SM_NOTE = ("Trusted: TLC; the HAL simulator clock (exact on the 1/64 s grid) and
            "behaviour length and machine time (evidence.tlc_runs); a state function performs up to 2 (exhaustive) / 3 (simulated) / 4 (random) in-state "
            "actions; the default state's function requests no transition; programs that select a state after the machine "
            "stopped inside the same iteration are outside the explored space except for the directed history of the open "
-           "finding F8 (known_findings.json), which C02/C03 replay and report as KNOWN-FINDING.")
+           "finding F8 (known_findings.json), which C02/C03 replay and report as KNOWN-FINDING (the autonomous variant does "
+           "explore it). State functions may raise: caught exceptions are judged like any other step; once an exception has "
+           "left execute() the behaviour is still compared with the specification step by step but no longer judged by the "
+           "invariants (the properties do not quantify over raising state functions).")
 CLAIMED = {
     "C01": dict(cat="model_checking", ref="DESIGN.md 4.1, 5/C01", note=SM_NOTE,
                 text="TLC checks the C01 invariants/action properties of specs/MagicSM.tla exhaustively on six machine shapes (bounded), shows they have teeth (a 'no_deactivate' mutation and the pre-fix 'nested_consumes_request' behaviour of the spec are caught) and are not vacuous (probes); the real StateMachine is then bound to the spec in both directions: random call/clock histories on random shapes recorded from the code are accepted by TLC against the spec (clauses: which and how many state functions ran per iteration), and TLC-simulated spec behaviours are replayed on the code.",
@@ -76,27 +79,27 @@ CLAIMED.update({
                 tech="TLA+ spec Controls + TLC exhaustive action properties; TLC batch trace validation; simulated behaviours replayed"),
     "C20": dict(cat="model_checking", ref="DESIGN.md 4.10, 5/C20",
                 note="Trusted: TLC and the CommunityModules Bitwise operators. The 256-entry table is read from the imported module at run time and is the object TLC reasons about; the loop around it is covered by conformance.",
-                text="Finite-state, hence exhaustive over all messages of all lengths: TLC steps the table-driven machine (table read from the real module) and the bit-serial reference together on every byte from every reachable checksum (Refines), checks table linearity (=> XOR-linearity by induction; explored directly in thorough), zero-step bijectivity, and on the bit-level syndrome machine that single-bit errors, double-bit errors < 127 apart and bursts <= 7 bits are always detected (period exactly 127). The real crc7() is validated on all one-byte messages, one two-byte message per model transition (32768) and random messages.",
+                text="Finite-state, hence exhaustive over all messages of all lengths: TLC steps the table-driven machine (table read from the real module) and the bit-serial reference together on every byte from every reachable checksum (Refines), checks table linearity (=> XOR-linearity by induction; explored directly in thorough), zero-step bijectivity, and on the bit-level syndrome machine that single-bit errors, double-bit errors < 127 apart and bursts <= 7 bits are always detected (period exactly 127). The real crc7() is validated on all one-byte messages, one two-byte message per model transition (32768) and random messages in six buffer kinds, with calls that fail part-way in between (the checksum is a function of the message alone).",
                 tech="TLA+ paired-machine refinement checked exhaustively by TLC on the code's own table; TLC trace validation of the real function"),
 })
 CLAIMED.update({
     "C09": dict(cat="model_checking", ref="DESIGN.md 4.6, 5/C09",
                 note="Trusted: TLC; the in-process NetworkTables instance; harness/drivers/tun_driver.py, which reaches topics through its own typed publishers / generic reads at the documented path. Owner names are identifiers; NetworkTables-side writes use the topic's own type. Exhaustive runs bounded in behaviour length.",
-                text="specs/Tunable.tla models NetworkTables as a path -> (type, value) map with the documented key construction and type table; TLC checks instance independence (key injectivity), the writeDefault rule and typed topics over every interleaving of NT-side writes (also before set-up), set-up, python writes and reads on several instances (mutations shared_class_entry / default_always_written / the pre-fix raw_getentry caught); generated classes with tunables of all 13 supported type shapes under components/autonomous/robot names are driven by random and TLC-simulated interleavings, and every read (python attribute and independent NetworkTables read: type string and value) is validated by TLC.",
+                text="specs/Tunable.tla models NetworkTables as a path -> (type, value) map with the documented key construction and type table; TLC checks instance independence (key injectivity), the writeDefault rule and typed topics over every interleaving of NT-side writes (also before set-up), set-up, python writes and reads on several instances (mutations shared_class_entry / default_always_written / the pre-fix raw_getentry caught); generated classes with tunables of all 13 supported type shapes under components/autonomous/robot names are driven by random and TLC-simulated interleavings, and every read (python attribute and independent NetworkTables read: type string and value) is validated by TLC. Type hints wider than the default, tunables declared on / overridden from a base class, and - in a third of the traces - owners that are the components, autonomous modes and robot object of a real MagicRobot bound by robotInit() (in situ).",
                 tech="TLA+ spec Tunable + TLC exhaustive invariants; TLC batch trace validation; simulated behaviours replayed"),
 })
 CLAIMED.update({
     "C08": dict(cat="model_checking", ref="DESIGN.md 4.5, 5/C08",
                 note="Trusted: TLC; harness/drivers/inject_driver.py, which builds each enumerated definition as real classes and calls robotInit(); bindings are identified by object identity against the robot's attributes/components. Non-type annotations and a robot attribute named like a component are outside the enumerated universe.",
-                text="specs/Inject.tla states the lookup rule (name first, then '<component>_<name>', None counts as absent, falsy values are delivered, isinstance check, presets and private names untouched, constructors see robot attributes and earlier components only, everything before any setup()); TLC enumerates the bounded universe of robot definitions (both declaration orders, 13 attribute options, 5 constructor options, robot attributes missing/instance/subclass/wrong type/0/''/None/list, class-level or createObjects-level, autonomous mode attributes), checks the lookup laws, and every enumerated definition is run through the real robotInit() and compared with TLC's required outcome (bindings by identity, or MagicInjectError with no setup() having run).",
+                text="specs/Inject.tla states the lookup rule (name first, then '<component>_<name>', None counts as absent, falsy values are delivered, isinstance check, presets and private names untouched, constructors see robot attributes and earlier components only, everything before any setup()); TLC enumerates the bounded universe of robot definitions (both declaration orders, 13 attribute options, 5 constructor options, robot attributes missing/instance/subclass/wrong type/0/''/None/list, class-level or createObjects-level, function objects, two instances of one component class preset differently by their constructor, autonomous mode attributes), checks the lookup laws, and every enumerated definition is run through the real robotInit() and compared with TLC's required outcome (bindings by identity, or MagicInjectError with no setup() having run).",
                 tech="TLA+ enumeration of robot definitions by TLC with required outcomes; every case built and started with the real MagicRobot"),
     "C12": dict(cat="model_checking", ref="DESIGN.md 4.7, 5/C12",
                 note="Trusted: TLC; harness/drivers/smdef_driver.py builds each enumerated definition with type()/exec; dir(StateMachine) is read from the class under test; Python's MRO for the generated hierarchies is checked against the order the spec assumes. When several instantiation errors apply any is accepted; a parameterless state function is adopted as accepted.",
-                text="specs/SMDef.tla defines how class bodies merge (base classes first, redefinition replaces in place), when a machine is instantiable, state_names/state_descriptions, legal signatures and forbidden names; TLC enumerates all hierarchies (single, linear, diamond, mix-in) within the bounds, all parameter lists of up to 4 parameters x 4 decorators, every identifier in dir(StateMachine) as a state name, alias / non-StateMachine owner / direct-call cases, checks the merge laws, and every case is built with the real library and compared with TLC's required outcome.",
+                text="specs/SMDef.tla defines how class bodies merge (base classes first, redefinition replaces in place), when a machine is instantiable, state_names/state_descriptions, legal signatures and forbidden names; TLC enumerates all hierarchies (single, linear, diamond, mix-in) within the bounds, all parameter lists of up to 4 parameters x 4 decorators, every identifier in dir(StateMachine) as a state name, alias / non-StateMachine owner / direct-call cases, each hierarchy also with its base classes instantiated first, checks the merge laws, and every case is built with the real library and compared with TLC's required outcome.",
                 tech="TLA+ enumeration of class definitions by TLC with required outcomes; every case built with the real library"),
     "C14": dict(cat="model_checking", ref="DESIGN.md 4.8, 5/C14",
                 note="Trusted: TLC; real packages written to a scratch directory under fresh names; DriverStationSim for the FMS flag; chooser options/default read through NetworkTables; wpilib's SendableChooser semantics (unknown selection = no mode; 'selected' outlives choosers). Which duplicate keeps the plain key / which of several defaults is preselected under FMS is left open. start() only when no mode is active.",
-                text="Discovery: specs/SelectorDisc.tla gives the required outcome (raise without FMS on duplicates / several defaults / failing import / failing constructor; with FMS every healthy mode offered, each candidate class constructed exactly once, DEFAULT preselected else None) for every package layout within the bounds x FMS; TLC enumerates them, each is written to disk and loaded by the real selector. Lifecycle: specs/Selector.tla (selection by dashboard string else chooser, one active mode, on_enable / on_iteration(t) / on_disable bracket, nothing after on_disable) is model-checked (mutation caught) and random + TLC-simulated start/periodic/disable histories over a real two-mode package are validated by TLC; run() periods are in the MagicRobot model.",
+                text="Discovery: specs/SelectorDisc.tla gives the required outcome (raise without FMS on duplicates / several defaults / failing import / failing constructor; with FMS every healthy mode offered, each candidate class constructed exactly once, DEFAULT preselected else None) for every package layout within the bounds x FMS; TLC enumerates them, each is written to disk and loaded by the real selector. Lifecycle: specs/Selector.tla (selection by dashboard string else chooser, one active mode, on_enable / on_iteration(t) / on_disable bracket, nothing after on_disable) is model-checked (mutation caught) and random + TLC-simulated start/periodic/disable histories over a real two-mode package are validated by TLC, as are whole autonomous periods through run() on the selector alone (iter_fn disabling the mode or changing the selection mid-run); run() periods inside the robot loop are in the MagicRobot model.",
                 tech="TLA+ enumeration of package layouts with required outcomes run on the real selector; TLA+ lifecycle spec + TLC exhaustive checks + TLC batch trace validation"),
 })
 
